@@ -66,6 +66,7 @@ def mag_pair(r: fb.Rng, zero_ok=True):
     if k == 3 and zero_ok: return (0.0, m) if r.chance(0.5) else (m, 0.0)
     if k == 4: return float(r.below(9) + 1), float(r.below(9) + 1)
     if k == 5: return r.logu(1e2, 1e6), r.logu(1e2, 1e6)
+    if k == 6: return eps_apart(r)          # difference exactly at the 1e-10 cancellation threshold (+- ulps)
     return m, mag_dom(r, zero_ok)
 
 def geo_pair(P, r: fb.Rng, zero_ok=True, big=True, rel=None):
@@ -96,3 +97,16 @@ def geo_pair(P, r: fb.Rng, zero_ok=True, big=True, rel=None):
         ab = canon_angle(P, r, big)
     a = P.add('GNewAngle', P.f(ma), aa); b = P.add('GNewAngle', P.f(mb), ab)
     return a, b, rel
+
+
+def eps_apart(r):
+    """magnitudes (ma, mb) whose floating-point difference fl(ma - mb) is EXACTLY 1e-10 shifted by k ulps,
+    k in -2..2 (the cancellation threshold of the opposite-angle path hit exactly), in either order"""
+    while True:
+        mb = r.choice([0.0, 1e-10, 2e-10, 3e-10, 1e-9, 2.5e-10, 7e-10])
+        target = fb.nxt(1e-10, r.choice([-2, -1, 0, 0, 0, 1, 2]))
+        ma = mb + target
+        for adj in (0, 1, -1, 2, -2):
+            cand = fb.nxt(ma, adj)
+            if cand - mb == target:
+                return (cand, mb) if r.chance(0.5) else (mb, cand)
